@@ -273,7 +273,7 @@ def int_candidates(d):
     pts = {0, 1, -1, -5, 2, I64 - 1, I64, -I64, -I64 - 1, 2 ** 64 - 1, 2 ** 64, 2 ** 31 - 1, 2 ** 31, -2 ** 31, -2 ** 31 - 1}
     for b in (lo, hi, t.get('min'), t.get('max')):
         if b is not None: pts |= {b - 1, b, b + 1}
-    vals = sorted(pts)
+    vals = sorted(pts, key=lambda i: (abs(i), i))     # small magnitudes first: the first failing input reported is a minimal one
     other = [True, False, '7', ' 12 ', '-3', '+0', 'x', '', '  ', '1_0', '1.0', '0x10', 1.0, 1.5, Decimal(1), None, b'1', [1], DEFAULT]
     if t.get('min') is not None: other.append(str(t['min'] - 1))
     if t.get('max') is not None: other.append(str(t['max'] + 1))
